@@ -30,3 +30,310 @@ fn trg_other_lengths() {
     kani::assume(n <= 96 && n != 80);
     assert!(TrgV3Packet::try_from(&b[..n]).is_err());
 }
+
+// ================================================================ id conversions (C01, C08): complete, finite domains
+#[kani::proof]
+#[kani::unwind(10)]
+fn alpha16_mac_complete() {
+    let mac: [u8; 6] = kani::any();
+    let r = crate::alpha16::BoardId::try_from(mac);
+    assert!(r.is_ok() == alpha16_known_mac(&mac));
+    if let Ok(b) = r {
+        assert!(b.mac_address() == mac);
+        let row = alpha16_row_of_name(b.name().as_bytes());
+        assert!(row.is_some() && SPEC_ALPHA16[row.unwrap()].1 == mac);
+        kani::cover!(true, "known mac reachable");
+    }
+}
+
+#[kani::proof]
+#[kani::unwind(73)]
+fn pwb_mac_complete() {
+    let mac: [u8; 6] = kani::any();
+    let r = crate::padwing::BoardId::try_from(mac);
+    let row = pwb_row_of_mac(&mac);
+    assert!(r.is_ok() == row.is_some());
+    if let Ok(b) = r {
+        let i = row.unwrap();
+        assert!(b.mac_address() == mac && b.device_id() == SPEC_PADWING[i].2);
+        assert!(b.name().as_bytes() == SPEC_PADWING[i].0.as_bytes());
+        kani::cover!(true, "known mac reachable");
+    }
+}
+
+#[kani::proof]
+#[kani::unwind(73)]
+fn pwb_device_complete() {
+    let d: u32 = kani::any();
+    let r = crate::padwing::BoardId::try_from(d);
+    let row = pwb_row_of_device(d);
+    assert!(r.is_ok() == row.is_some());
+    if let Ok(b) = r {
+        let i = row.unwrap();
+        assert!(b.device_id() == d && b.mac_address() == SPEC_PADWING[i].1);
+        assert!(b.name().as_bytes() == SPEC_PADWING[i].0.as_bytes());
+        kani::cover!(true, "known device reachable");
+    }
+}
+
+#[kani::proof]
+fn small_ids_complete() {
+    use crate::alpha16::{Adc16ChannelId, Adc32ChannelId, ModuleId};
+    use crate::padwing::{AfterId, Compression, Trigger};
+    let n: u8 = kani::any();
+    assert!(Adc16ChannelId::try_from(n).is_ok() == (n <= 15));
+    assert!(Adc32ChannelId::try_from(n).is_ok() == (n <= 31));
+    assert!(ModuleId::try_from(n).is_ok() == (n <= 7));
+    let m: u8 = kani::any();
+    if n <= 15 && m <= 15 { assert!((Adc16ChannelId::try_from(n).unwrap() == Adc16ChannelId::try_from(m).unwrap()) == (n == m)); }
+    if n <= 31 && m <= 31 { assert!((Adc32ChannelId::try_from(n).unwrap() == Adc32ChannelId::try_from(m).unwrap()) == (n == m)); }
+    if n <= 7 && m <= 7 { assert!((ModuleId::try_from(n).unwrap() == ModuleId::try_from(m).unwrap()) == (n == m)); }
+    let a = AfterId::try_from(n);
+    assert!(a.is_ok() == (n <= 3));
+    if let Ok(a) = a {
+        assert!(match a { AfterId::A => n == 0, AfterId::B => n == 1, AfterId::C => n == 2, AfterId::D => n == 3 });
+        // byte and character forms of the chip id agree
+        assert!(AfterId::try_from((b'A' + n) as char).map(|c| c == a).unwrap_or(false));
+    }
+    let c: char = kani::any();
+    assert!(AfterId::try_from(c).is_ok() == ('A' <= c && c <= 'D'));
+    assert!(Compression::try_from(n).is_ok() == (n == 0));
+    let t = Trigger::try_from(n);
+    assert!(t.is_ok() == (n == 0 || n == 1 || n == 3));
+    let e: u16 = kani::any();
+    assert!(crate::midas::EventId::try_from(e).is_ok() == (e == 1 || e == 4 || e == 8));
+    let cb = crate::chronobox::ChannelId::try_from(n);
+    assert!(cb.is_ok() == (n < 59));
+    if let Ok(cb) = cb { assert!(u8::from(cb) == n); }
+}
+
+#[kani::proof]
+#[kani::unwind(74)]
+fn pwb_readout_complete() {
+    use crate::padwing::ChannelId;
+    let i: u16 = kani::any();
+    let r = ChannelId::try_from(i);
+    assert!(r.is_ok() == (1 <= i && i <= 79));
+    if let Ok(c) = r {
+        assert!(chan_key(c) == chan_of(i));
+        let (kind, n) = chan_of(i);
+        assert!(match kind { 0 => 1 <= n && n <= 3, 1 => 1 <= n && n <= 4, _ => 1 <= n && n <= 72 });
+        // injective: another index with the same channel is the same index
+        let j: u16 = kani::any();
+        if let Ok(d) = ChannelId::try_from(j) { assert!((c == d) == (i == j)); }
+        kani::cover!(kind == 1, "fpn reachable");
+    }
+}
+
+// ================================================================ bank names (C01, C08): all 4-byte strings
+fn hex_val(c: u8) -> Option<u8> { match c { b'0'..=b'9' => Some(c - b'0'), b'A'..=b'F' => Some(c - b'A' + 10), _ => None } }
+fn b32_val(c: u8) -> Option<u8> { match c { b'0'..=b'9' => Some(c - b'0'), b'A'..=b'V' => Some(c - b'A' + 10), _ => None } }
+
+#[kani::proof]
+#[kani::unwind(12)]
+fn name_adc16_4() {
+    let b: [u8; 4] = kani::any();
+    if let Ok(name) = core::str::from_utf8(&b) {
+        let r = crate::midas::Adc16BankName::try_from(name);
+        let row = alpha16_row_of_name(&b[1..3]);
+        let spec = b[0] == b'B' && row.is_some() && hex_val(b[3]).is_some();
+        assert!(r.is_ok() == spec);
+        if let Ok(n) = r {
+            assert!(n.board_id().name().as_bytes() == &b[1..3]);
+            assert!(n.channel_id() == crate::alpha16::Adc16ChannelId::try_from(hex_val(b[3]).unwrap()).unwrap());
+            kani::cover!(true, "accepting path reachable");
+        }
+    }
+}
+
+#[kani::proof]
+#[kani::unwind(12)]
+fn name_adc32_4() {
+    let b: [u8; 4] = kani::any();
+    if let Ok(name) = core::str::from_utf8(&b) {
+        let r = crate::midas::Adc32BankName::try_from(name);
+        let row = alpha16_row_of_name(&b[1..3]);
+        let spec = b[0] == b'C' && row.is_some() && b32_val(b[3]).is_some();
+        assert!(r.is_ok() == spec);
+        if let Ok(n) = r {
+            assert!(n.board_id().name().as_bytes() == &b[1..3]);
+            assert!(n.channel_id() == crate::alpha16::Adc32ChannelId::try_from(b32_val(b[3]).unwrap()).unwrap());
+            kani::cover!(true, "accepting path reachable");
+        }
+    }
+}
+
+#[kani::proof]
+#[kani::unwind(73)]
+fn name_padwing_4() {
+    let b: [u8; 4] = kani::any();
+    if let Ok(name) = core::str::from_utf8(&b) {
+        let r = crate::midas::PadwingBankName::try_from(name);
+        let row = pwb_row_of_name(&b[2..4]);
+        let spec = b[0] == b'P' && b[1] == b'C' && row.is_some();
+        assert!(r.is_ok() == spec);
+        if let Ok(n) = r {
+            assert!(n.board_id().name().as_bytes() == &b[2..4]);
+            assert!(n.board_id().device_id() == SPEC_PADWING[row.unwrap()].2);
+            kani::cover!(true, "accepting path reachable");
+        }
+    }
+}
+
+#[kani::proof]
+#[kani::unwind(12)]
+fn name_fixed_4() {
+    use crate::midas::*;
+    let b: [u8; 4] = kani::any();
+    if let Ok(name) = core::str::from_utf8(&b) {
+        assert!(TriggerBankName::try_from(name).is_ok() == (&b == b"ATAT"));
+        assert!(Trb3BankName::try_from(name).is_ok() == (&b == b"TRBA"));
+        assert!(Seq2BankName::try_from(name).is_ok() == (&b == b"SEQ2"));
+        assert!(McVertexBankName::try_from(name).is_ok() == (&b == b"MCVX"));
+        let c = ChronoboxBankName::try_from(name);
+        assert!(c.is_ok() == (&b[..3] == b"CBF" && b'1' <= b[3] && b[3] <= b'4'));
+        if let Ok(c) = c {
+            let n = c.board_id.name().as_bytes();
+            assert!(n.len() == 4 && &n[..3] == b"cb0" && n[3] == b[3]);
+        }
+    }
+}
+
+#[kani::proof]
+#[kani::unwind(73)]
+fn name_main_event_4() {
+    use crate::midas::*;
+    let b: [u8; 4] = kani::any();
+    if let Ok(name) = core::str::from_utf8(&b) {
+        let r = MainEventBankName::try_from(name);
+        let a16 = Adc16BankName::try_from(name);
+        let a32 = Adc32BankName::try_from(name);
+        let pw = PadwingBankName::try_from(name);
+        let fixed = &b == b"ATAT" || &b == b"TRBA" || &b == b"MCVX";
+        // exactly the documented names, each with exactly one meaning, dispatch agrees with the specific parsers
+        assert!(r.is_ok() == (a16.is_ok() || a32.is_ok() || pw.is_ok() || fixed));
+        assert!((a16.is_ok() as u8) + (a32.is_ok() as u8) + (pw.is_ok() as u8) + (fixed as u8) <= 1);
+        match r {
+            Ok(MainEventBankName::Alpha16(Alpha16BankName::A16(n))) => assert!(a16.as_ref().map(|x| *x == n).unwrap_or(false)),
+            Ok(MainEventBankName::Alpha16(Alpha16BankName::A32(n))) => assert!(a32.as_ref().map(|x| *x == n).unwrap_or(false)),
+            Ok(MainEventBankName::Padwing(n)) => assert!(pw.as_ref().map(|x| *x == n).unwrap_or(false)),
+            Ok(MainEventBankName::Trg(_)) => assert!(&b == b"ATAT"),
+            Ok(MainEventBankName::Trb3(_)) => assert!(&b == b"TRBA"),
+            Ok(MainEventBankName::McVertex(_)) => assert!(&b == b"MCVX"),
+            Err(_) => {}
+        }
+        let al = Alpha16BankName::try_from(name);
+        assert!(al.is_ok() == (a16.is_ok() || a32.is_ok()));
+    }
+}
+
+// other lengths (bounded: 0..=8 bytes): never a panic, always rejected
+#[kani::proof]
+#[kani::unwind(12)]
+fn name_other_lengths() {
+    use crate::midas::*;
+    let b: [u8; 8] = kani::any();
+    let n: usize = kani::any();
+    kani::assume(n <= 8 && n != 4);
+    if let Ok(name) = core::str::from_utf8(&b[..n]) {
+        assert!(Adc16BankName::try_from(name).is_err());
+        assert!(Adc32BankName::try_from(name).is_err());
+        assert!(PadwingBankName::try_from(name).is_err());
+        assert!(MainEventBankName::try_from(name).is_err());
+        assert!(ChronoboxBankName::try_from(name).is_err());
+        assert!(TriggerBankName::try_from(name).is_err());
+    }
+}
+
+// ================================================================ ADC v3 at fixed lengths (C01, C02): bounded in the sample count
+fn adc_check(b: &[u8]) {
+    let r = crate::alpha16::AdcV3Packet::try_from(b);
+    assert!(r.is_ok() == adc_ok(b));
+    if let Ok(p) = r {
+        assert!(adc_fields_ok(&p, b));
+        kani::cover!(true, "accepting path reachable");
+    }
+}
+#[kani::proof]
+#[kani::unwind(10)]
+fn adc_len16() { let b: [u8; 16] = kani::any(); adc_check(&b); }
+#[kani::proof]
+#[kani::unwind(10)]
+fn adc_short_lengths() {
+    // 0..=15 and 17..=35 bytes
+    let b: [u8; 35] = kani::any();
+    let n: usize = kani::any();
+    kani::assume(n <= 35 && n != 16);
+    let r = crate::alpha16::AdcV3Packet::try_from(&b[..n]);
+    assert!(r.is_err());
+    assert!(!adc_ok(&b[..n]));
+}
+#[kani::proof]
+#[kani::unwind(70)]
+fn adc_len164() { let b: [u8; 164] = kani::any(); adc_check(&b); }
+#[kani::proof]
+#[kani::unwind(70)]
+fn adc_len166() { let b: [u8; 166] = kani::any(); adc_check(&b); }
+#[kani::proof]
+#[kani::unwind(70)]
+fn adc_len165_162() {
+    let b: [u8; 165] = kani::any();
+    adc_check(&b);          // odd number of sample bytes
+    adc_check(&b[..162]);   // 63 samples
+}
+
+// ================================================================ chunk at fixed lengths (C01, C03): bounded; CRC is the Kani stub
+fn chunk_check(b: &[u8]) {
+    let r = crate::padwing::Chunk::try_from(b);
+    assert!(r.is_ok() == chunk_ok(b, crc32c::crc32c));
+    if let Ok(c) = r {
+        assert!(chunk_fields_ok(&c, b, crc32c::crc32c));
+        kani::cover!(true, "accepting path reachable");
+    }
+}
+#[kani::proof]
+#[kani::unwind(73)]
+fn chunk_len28() { let b: [u8; 28] = kani::any(); chunk_check(&b); }
+#[kani::proof]
+#[kani::unwind(73)]
+fn chunk_len32() { let b: [u8; 32] = kani::any(); chunk_check(&b); }
+#[kani::proof]
+#[kani::unwind(73)]
+fn chunk_other_lengths() {
+    let b: [u8; 31] = kani::any();
+    let n: usize = kani::any();
+    kani::assume(n <= 31 && n != 28);
+    assert!(crate::padwing::Chunk::try_from(&b[..n]).is_err());
+    assert!(!chunk_ok(&b[..n], crc32c::crc32c));
+}
+
+// ================================================================ PWB v2 at fixed shapes (C01, C05): bounded (<= 2 channels sent)
+fn pwb_packet<const N: usize>(sent_bits: &[u16]) -> [u8; N] {
+    let mut b: [u8; N] = kani::any();
+    // sent mask restricted to the given bit positions (each symbolic < 79); everything else symbolic
+    let mut m: u128 = 0;
+    for &p in sent_bits { m |= 1u128 << p; }
+    let mut i = 0;
+    while i < 10 { b[24 + i] = (m >> (8 * i)) as u8; i += 1; }
+    b
+}
+fn pwb_check(b: &[u8]) {
+    let r = crate::padwing::PwbV2Packet::try_from(b);
+    assert!(r.is_ok() == pwb_ok(b));
+    if let Ok(p) = r {
+        assert!(pwb_fields_ok(&p, b));
+        kani::cover!(true, "accepting path reachable");
+    }
+}
+#[kani::proof]
+#[kani::unwind(81)]
+fn pwb_0ch() {
+    // no channel sent: 56 bytes; threshold mask restricted to <= 2 bits to bound the second loop
+    let mut b: [u8; 56] = pwb_packet::<56>(&[]);
+    let (t0, t1): (u16, u16) = (kani::any(), kani::any());
+    kani::assume(t0 < 80 && t1 < 80);
+    let m: u128 = (1u128 << t0) | (1u128 << t1);
+    let mut i = 0;
+    while i < 10 { b[34 + i] = (m >> (8 * i)) as u8; i += 1; }
+    pwb_check(&b);
+}
